@@ -76,3 +76,256 @@ fn bucket_readonly_guards() {
     assert!(b.freelist.borrow().pages.len() == 0);
     std::mem::forget(b);
 }
+
+use crate::cursor::jv::{bucket_value, mk_bucket, put_branch_page, put_leaf_page, Ent};
+
+fn pending_has_once(p: &Vec<u64>, page: u64) -> bool {
+    let mut n = 0;
+    let mut i = 0;
+    while i < p.len() {
+        if p[i] == page {
+            n += 1;
+        }
+        i += 1;
+    }
+    n == 1
+}
+
+// ---- C05-Ob6: bucket deletion frees every page run of the bucket exactly once (incl. overflow runs)
+// @ob props=C05,C10,C01 tier=quick cap=900 mem=16 fns=InnerBucket::delete_bucket,InnerBucket::get_bucket,InnerBucket::bucket_getter,TxFreelist::free,search,InnerBucket::node,Node::delete bound="root leaf with one bucket entry (name 1 symbolic byte) whose root is a leaf run of 3 pages (overflow 2) holding one 2-byte kv; tx id 7" unwind=20
+#[kani::proof]
+#[kani::unwind(20)]
+fn bucket_delete_frees_overflow_run() {
+    let name: [u8; 1] = kani::any();
+    let bv = bucket_value(4, 1);
+    put_leaf_page(3, 0, &[Ent { t: 1, k: &name, v: &bv }]);
+    let k: [u8; 2] = kani::any();
+    put_leaf_page(4, 2, &[Ent { t: 0, k: &k, v: &[9] }]);
+    let b = mk_bucket(3, true);
+    let r = b.delete_bucket(name);
+    assert!(r.is_ok());
+    std::mem::forget(r);
+    {
+        let tf = b.freelist.borrow();
+        let p = crate::freelist::jv::pending_of(&tf.inner, 7);
+        assert!(p.is_some());
+        if let Some(p) = p {
+            assert!(p.len() == 3, "the whole run (head + overflow pages) is freed, once");
+            assert!(pending_has_once(p, 4) && pending_has_once(p, 5) && pending_has_once(p, 6));
+        }
+        assert!(crate::freelist::jv::n_free(&tf.inner) == 0);
+    }
+    {
+        let ib = b.inner.borrow();
+        assert!(ib.dirty, "the parent is dirty");
+        assert!(ib.buckets.len() == 0, "the deleted bucket is forgotten");
+        assert!(ib.nodes.len() == 1 && ib.nodes[0].borrow().data.len() == 0, "its entry is removed from the parent's leaf");
+    }
+    let again = b.get_bucket(name);
+    assert!(matches!(again, Err(Error::BucketMissing)), "and it can no longer be found");
+    std::mem::forget(again);
+    std::mem::forget(b);
+}
+
+// ---- C05-Ob6: a bucket with a branch root, two leaves (one with an overflow page) and a nested bucket
+// @ob props=C05,C10 tier=quick cap=1200 mem=16 fns=InnerBucket::delete_bucket,TxFreelist::free,Page::branch_elements,Page::leaf_elements,BucketMeta::from bound="deleted bucket: branch root 4 over leaf 5 (overflow 1) and leaf 7, leaf 7 holds a nested bucket rooted at leaf 8; key bytes symbolic" unwind=20
+#[kani::proof]
+#[kani::unwind(20)]
+fn bucket_delete_walks_tree() {
+    let name: [u8; 1] = kani::any();
+    let bv = bucket_value(4, 3);
+    put_leaf_page(3, 0, &[Ent { t: 1, k: &name, v: &bv }]);
+    let ka: [u8; 1] = kani::any();
+    let kb: [u8; 1] = kani::any();
+    kani::assume(ka[0] < kb[0]);
+    put_branch_page(4, 0, &[(&ka, 5), (&kb, 7)]);
+    put_leaf_page(5, 1, &[Ent { t: 0, k: &ka, v: &[1] }]);
+    let nv = bucket_value(8, 0);
+    put_leaf_page(7, 0, &[Ent { t: 1, k: &kb, v: &nv }]);
+    put_leaf_page(8, 0, &[]);
+    let b = mk_bucket(3, true);
+    let r = b.delete_bucket(name);
+    assert!(r.is_ok());
+    std::mem::forget(r);
+    {
+        let tf = b.freelist.borrow();
+        let p = crate::freelist::jv::pending_of(&tf.inner, 7);
+        assert!(p.is_some());
+        if let Some(p) = p {
+            assert!(p.len() == 5, "every reachable run is freed exactly once: 4, 5+6, 7, 8");
+            assert!(pending_has_once(p, 4) && pending_has_once(p, 5) && pending_has_once(p, 6) && pending_has_once(p, 7) && pending_has_once(p, 8));
+        }
+    }
+    std::mem::forget(b);
+}
+
+use crate::cursor::jv::tree_single_leaf;
+
+fn val_of(l: &Option<Leaf>) -> Option<u8> {
+    match l {
+        Some(Leaf::Kv(_, v)) => {
+            let s: &[u8] = v.as_ref();
+            assert!(s.len() == 1);
+            Some(s[0])
+        }
+        Some(_) => Some(255),
+        None => None,
+    }
+}
+
+// ---- C01-Ob4 / C07: point lookup on a committed leaf
+// @ob props=C01,C07 tier=quick cap=600 fns=InnerBucket::get,search,PageNode::index,PageNode::val,InnerBucket::page_node bound="root leaf page with 3 sorted symbolic 2-byte keys (values 7,8,9); lookup key symbolic" unwind=5
+#[kani::proof]
+#[kani::unwind(5)]
+fn bucket_get_step() {
+    let keys: [[u8; 2]; 3] = kani::any();
+    kani::assume(keys[0] < keys[1] && keys[1] < keys[2]);
+    tree_single_leaf(&keys, 3);
+    let b = mk_bucket(3, false);
+    let k: [u8; 2] = kani::any();
+    let got = b.inner.borrow_mut().get(k);
+    let expect = if k == keys[0] { Some(7) } else if k == keys[1] { Some(8) } else if k == keys[2] { Some(9) } else { None };
+    assert!(val_of(&got) == expect, "get returns the stored value, or nothing for an absent key");
+    assert!(is_clean(&b.inner.borrow()), "a lookup materialises nothing");
+    kani::cover!(expect == Some(9));
+    kani::cover!(expect.is_none() && k > keys[2]);
+    std::mem::forget(got);
+    std::mem::forget(b);
+}
+
+// ---- C01-Ob4 / C07: put on a committed leaf: insert or overwrite, counter semantics, read-your-write
+// @ob props=C01,C07 tier=quick cap=900 mem=16 fns=InnerBucket::put,InnerBucket::put_leaf,InnerBucket::node,Node::from_page,Node::insert_data,InnerBucket::get bound="root leaf page with 2 sorted symbolic 2-byte keys; put key symbolic 2 bytes, value 1 symbolic byte; then 3 lookups" unwind=5
+#[kani::proof]
+#[kani::unwind(5)]
+fn bucket_put_step() {
+    let k2: [[u8; 2]; 2] = kani::any();
+    kani::assume(k2[0] < k2[1]);
+    let keys = [k2[0], k2[1], [0, 0]];
+    tree_single_leaf(&keys, 2);
+    let b = mk_bucket(3, true);
+    let k: [u8; 2] = kani::any();
+    let v: [u8; 1] = kani::any();
+    let hit = k == k2[0] || k == k2[1];
+    let r = b.inner.borrow_mut().put(k, v);
+    assert!(r.is_ok());
+    if let Ok(old) = &r {
+        match old {
+            Some((_, ov)) => {
+                let s: &[u8] = ov.as_ref();
+                assert!(hit && s.len() == 1 && s[0] == if k == k2[0] { 7 } else { 8 }, "overwriting returns the previous value");
+            }
+            None => assert!(!hit, "a new key returns nothing"),
+        }
+    }
+    std::mem::forget(r);
+    assert!(b.inner.borrow().meta.next_int == if hit { 0 } else { 1 }, "the insertion counter is bumped for a new key only");
+    assert!(b.inner.borrow().dirty);
+    // read your own write, and the other entries are untouched
+    let g = b.inner.borrow_mut().get(k);
+    assert!(val_of(&g) == Some(v[0]), "the transaction reads its own put");
+    std::mem::forget(g);
+    let g0 = b.inner.borrow_mut().get(k2[0]);
+    assert!(val_of(&g0) == Some(if k == k2[0] { v[0] } else { 7 }));
+    std::mem::forget(g0);
+    let g1 = b.inner.borrow_mut().get(k2[1]);
+    assert!(val_of(&g1) == Some(if k == k2[1] { v[0] } else { 8 }));
+    std::mem::forget(g1);
+    kani::cover!(hit);
+    kani::cover!(!hit && k < k2[0]);
+    kani::cover!(!hit && k > k2[1]);
+    std::mem::forget(b);
+}
+
+// ---- C01-Ob4 / C07: delete on a committed leaf
+// @ob props=C01,C07 tier=quick cap=900 mem=16 fns=InnerBucket::delete,InnerBucket::node,Node::from_page,Node::delete,InnerBucket::get bound="root leaf page with 3 sorted symbolic 2-byte keys; delete key symbolic; then lookups" unwind=5
+#[kani::proof]
+#[kani::unwind(5)]
+fn bucket_delete_step() {
+    let keys: [[u8; 2]; 3] = kani::any();
+    kani::assume(keys[0] < keys[1] && keys[1] < keys[2]);
+    tree_single_leaf(&keys, 3);
+    let b = mk_bucket(3, true);
+    let k: [u8; 2] = kani::any();
+    let idx = if k == keys[0] { 0 } else if k == keys[1] { 1 } else if k == keys[2] { 2 } else { 3 };
+    let r = b.inner.borrow_mut().delete(k);
+    if idx == 3 {
+        assert!(matches!(r, Err(Error::KeyValueMissing)), "deleting an absent key reports KeyValueMissing");
+        assert!(is_clean(&b.inner.borrow()), "and changes nothing");
+    } else {
+        assert!(r.is_ok());
+        if let Ok((_, ov)) = &r {
+            let s: &[u8] = ov.as_ref();
+            assert!(s.len() == 1 && s[0] == 7 + idx as u8, "delete returns the removed pair");
+        }
+        assert!(b.inner.borrow().dirty);
+    }
+    std::mem::forget(r);
+    assert!(b.inner.borrow().meta.next_int == 0, "deleting never changes the insertion counter");
+    let g = b.inner.borrow_mut().get(k);
+    assert!(g.is_none(), "the deleted key is gone for the transaction's own reads");
+    std::mem::forget(g);
+    let other = if idx == 0 { 1 } else { 0 };
+    let g = b.inner.borrow_mut().get(keys[other]);
+    assert!(val_of(&g) == Some(7 + other as u8), "other entries are untouched");
+    std::mem::forget(g);
+    kani::cover!(idx == 1);
+    kani::cover!(idx == 3);
+    std::mem::forget(b);
+}
+
+// ---- C01-Ob4 / C06-Ob4: bucket lookups / creations that fail change nothing; a creation bumps the counter once
+// @ob props=C01,C06,C07 tier=quick cap=900 mem=16 fns=InnerBucket::get_bucket,InnerBucket::create_bucket,InnerBucket::get_or_create_bucket,InnerBucket::bucket_getter,InnerBucket::put,InnerBucket::new_child bound="root leaf page with one kv entry and one bucket entry (1-byte names, symbolic); probe name symbolic 1 byte" unwind=5
+#[kani::proof]
+#[kani::unwind(5)]
+fn bucket_getter_steps() {
+    let kvn: [u8; 1] = kani::any();
+    let bn: [u8; 1] = kani::any();
+    kani::assume(kvn[0] < bn[0]);
+    let bv = bucket_value(5, 0);
+    put_leaf_page(3, 0, &[Ent { t: 0, k: &kvn, v: &[7] }, Ent { t: 1, k: &bn, v: &bv }]);
+    put_leaf_page(5, 0, &[]);
+    let b = mk_bucket(3, true);
+    let name: [u8; 1] = kani::any();
+    let is_kv = name == kvn;
+    let is_b = name == bn;
+    // 1. get_bucket
+    let r = b.inner.borrow_mut().get_bucket(name);
+    if is_b {
+        assert!(r.is_ok(), "an existing bucket is found");
+    } else if is_kv {
+        assert!(matches!(r, Err(Error::IncompatibleValue)), "a key/value pair is not a bucket");
+    } else {
+        assert!(matches!(r, Err(Error::BucketMissing)), "a missing bucket is reported as such");
+    }
+    std::mem::forget(r);
+    assert!(b.inner.borrow().meta.next_int == 0 && !b.inner.borrow().dirty && b.inner.borrow().nodes.len() == 0,
+            "a lookup, successful or not, changes neither the counter nor the tree");
+    // 2. put over a bucket name is refused and changes nothing
+    if is_b {
+        let p = b.inner.borrow_mut().put(name, [1u8]);
+        assert!(matches!(p, Err(Error::IncompatibleValue)), "a bucket cannot be overwritten by a value");
+        std::mem::forget(p);
+        assert!(b.inner.borrow().meta.next_int == 0 && !b.inner.borrow().dirty, "a refused put changes nothing");
+    }
+    // 3. create_bucket
+    let c = b.inner.borrow_mut().create_bucket(name);
+    if is_b {
+        assert!(matches!(c, Err(Error::BucketExists)));
+    } else if is_kv {
+        assert!(matches!(c, Err(Error::IncompatibleValue)));
+    } else {
+        assert!(c.is_ok(), "a new bucket can be created");
+    }
+    std::mem::forget(c);
+    let created = !is_b && !is_kv;
+    assert!(b.inner.borrow().meta.next_int == created as u64, "the counter is bumped exactly when a bucket entry is added");
+    assert!(b.inner.borrow().dirty == created, "a failed creation changes nothing");
+    // 4. the transaction sees its own creation
+    let again = b.inner.borrow_mut().get_bucket(name);
+    assert!(again.is_ok() == (is_b || created));
+    std::mem::forget(again);
+    kani::cover!(is_b);
+    kani::cover!(is_kv);
+    kani::cover!(created && name[0] > bn[0]);
+    std::mem::forget(b);
+}
